@@ -20,7 +20,7 @@ from lx.lifted import LiftedScript, dump_runner, set_eq
 from lx.tree import PLACEHOLDER
 
 PID = "C14"
-BOUNDS = ("corpus of checks/corpus.py (no-data kinds excluded); S and up to 4 (quick) / 5 (thorough) other table/schema/alias names free, "
+BOUNDS = ("corpus of checks/corpus.py (no-data kinds excluded); S and up to 4 other table/schema/alias names free (3 on the depth-4 random compositions of the thorough tier), "
           "2-character bodies (thorough: S also 1 and 3 characters); mechanisms {scoped override, environment, environment while another key is overridden in scope, scoped override over a different environment value}; dialect ansi "
           "(thorough: + sparksql, tsql, postgres on /plain statements)")
 STUBS = ["sqllineage.runner.split / SqlFluffLineageAnalyzer._list_specific_statement_segment (parser boundary)",
@@ -220,9 +220,11 @@ def obligations(tier, seed):
     # would contain the symbolic S in the qualified twin (C01/C02 cover them with concrete names inside the subquery)
     tpl = [(k, st) for k, st in corpus.build(tier, seed) if st.kind not in ("show", "use") and not reentrant_slots(st)]
     obs = []
-    budget = 4 if tier == "quick" else 5
+    # (measured: a twin instance costs two full runs plus both exports per path; 5-6 free names on every template ran past an
+    # hour, so the thorough tier widens the template set and the mechanism instances, not the number of free names)
+    budget = 4
     for k, st in tpl:
-        obs.append(DefaultSchemaOb(k, st, "ansi", "override", budget, seed))
+        obs.append(DefaultSchemaOb(k, st, "ansi", "override", 3 if k.startswith("rand/") else budget, seed))
     if tier == "quick":
         keep = [o for o in obs if ("/plain" in o.key and "/insert/" in o.key) or "merge" in o.key or "update" in o.key or "nodata" in o.key
                 or "schema" in o.key]
